@@ -75,6 +75,12 @@ impl OperationTransformVisitor<'_> {
             self.transform_status.telemetry.inc(tag);
         }
     }
+
+    fn mark_modified(&mut self) {
+        if self.transform_status.status != Status::Cancelled {
+            self.transform_status.status = Status::Modified;
+        }
+    }
 }
 
 impl Visit for OperationTransformVisitor<'_> {}
@@ -160,7 +166,9 @@ impl VisitMut for OperationTransformVisitor<'_> {
                 );
                 if transform_result.is_modified() {
                     expr.map_with_mut(|e| transform_result.expr.unwrap_or(e));
-                    opv_with_child_ctx.update_status(transform_result.status, transform_result.tag);
+                    // lowering the chain changes the code but is not a propagation by itself:
+                    // the call it exposes is counted when it is instrumented below
+                    opv_with_child_ctx.mark_modified();
                 }
 
                 expr.visit_mut_children_with(opv_with_child_ctx);
